@@ -3,6 +3,7 @@ from enum import Enum
 from pathlib import Path
 
 from packaging.requirements import InvalidRequirement
+from packaging.utils import canonicalize_name
 
 from codemodder.dependency import Requirement
 
@@ -36,7 +37,11 @@ class PackageStore:
         self.py_versions = py_versions
 
     def has_requirement(self, requirement: Requirement) -> bool:
-        return requirement.name in {dep.name for dep in self.dependencies}
+        # Names are compared in normalized form (PEP 503): `Security` and
+        # `security`, `a_b` and `a-b` are the same package
+        return canonicalize_name(requirement.name) in {
+            canonicalize_name(dep.name) for dep in self.dependencies
+        }
 
 
 def parse_requirement(requirement: str | Requirement) -> Requirement:
